@@ -76,7 +76,9 @@ OnStep(e) ==
     THEN LET v1 == V(s.viol, e.inc_ok, "AcceptedStepWithinTol")
              v2 == IF s.lastAcc # NoT /\ Crossed(s.lastAcc, e.t) THEN v1 \cup {"NoStepCrossesEvent"} ELSE v1
              v3 == IF e.nan_state THEN v2 \cup {"NoNaNAccepted"} ELSE v2
-             v4 == IF s.lastAcc # NoT /\ ~(e.t > s.lastAcc) THEN v3 \cup {"AcceptedTimesIncrease"} ELSE v3
+             v4a == IF s.lastAcc # NoT /\ ~(e.t > s.lastAcc) THEN v3 \cup {"AcceptedTimesIncrease"} ELSE v3
+             (* the rule is the rule with the models' present time constants *)
+             v4 == V(v4a, e.mass_current, "StepUsesCurrentTimeConstants")
          IN [s EXCEPT !.ph = "post", !.lastAcc = e.t, !.nacc = s.nacc + 1, !.storedThis = FALSE, !.viol = v4,
                       !.drift = D(D(s.drift, s.ph = "step", "order_step"), e.conv, "ret_is_converged")]
     ELSE [s EXCEPT !.ph = "rej", !.nrej = s.nrej + 1,
